@@ -16,7 +16,7 @@ func isIntrinsic(name string) bool {
 		return true
 	}
 	switch name {
-	case "vAssume", "vAssert", "vReach", "vB2I", "vHash", "vCrash", "vCatchCrash", "vParam", "vChoose", "vRegion", "vNote", "vIsSym", "vHang", "vNative":
+	case "vAssume", "vAssert", "vReach", "vB2I", "vHash", "vCrash", "vCatchCrash", "vParam", "vChoose", "vRegion", "vNote", "vIsSym", "vHang", "vNative", "vHeld", "vSyncMapPut":
 		return true
 	}
 	return false
@@ -110,6 +110,18 @@ func callIntrinsic(fr *frame, fn *ssa.Function, args []value) value {
 		return containsSym(args[0])
 	case "vNative":
 		return false
+	case "vHeld":
+		return heldCount()
+	case "vSyncMapPut":
+		// interference: another thread stored (k, v) into the sync.Map unless the key is present
+		m := args[0].(*value)
+		for _, e := range syncMaps[m] {
+			if equals(nil, e.k, args[1]) {
+				return false
+			}
+		}
+		syncMaps[m] = append(syncMaps[m], syncMapEntry{args[1], args[2]})
+		return true
 	case "vHang":
 		// the harness detected that the code under test would block for ever
 		panic(targetPanic{iface{t: fr.i.runtimeErrorString, v: "VERIF: hang: " + asStr(args[0])}})
